@@ -34,9 +34,11 @@ pub fn push_value<Data: GarnishData>(this: &mut Data) -> Result<Option<Data::Siz
 
 pub fn update_value<Data: GarnishData>(this: &mut Data) -> Result<Option<Data::Size>, RuntimeError<Data::Error>> {
     let r = next_ref(this)?;
-    match this.get_current_value_mut() {
+    // replace the entry instead of rewriting it in place (as reapply does): an entry that already lies in a
+    // store's retained prefix must not start pointing at newer data, compaction would leave it dangling
+    match this.pop_value_stack() {
         None => state_error(format!("No inputs available to update for update value operation."))?,
-        Some(v) => *v = r,
+        Some(_) => this.push_value_stack(r)?,
     }
 
     Ok(None)
